@@ -16,7 +16,9 @@ Line-protocol driver of the C12 sharding model.  Numbers are decimal.
     gpans <i> ok | gpans <i> err <code>     backend i's answer to Get/Put
     clear                           forget all scripted answers
     fm <digest>*                    -> calls <i>=[d,d] ... -> ok <d>* | error <code> shard <key>
-    get <digest> | put <digest>     -> backend <i> ok | backend <i> error <code> shard <key>
+    get <digest> | put <digest>     -> get<i>=<d> ok | ... error <code> shard <key>
+    getc <parent> <child>           -> getc<i>=<parent>><child> ok | ... error <code> shard <key>   (GetFromComposite)
+    dump                            -> the constructor's internal list: <keyhash>:<weight>:<index> ... in stored order
 
 A digest is `<instance>:<hexhash>:<size>` (instance may be empty).  Output lists are sorted and
 deduplicated (presentation only; the real code works on sorted sets).
@@ -97,6 +99,7 @@ def showCall : Call → String
   | .fm i ds => s!"{i}=[{showDigests ds}]"
   | .get i d => s!"get{i}={showDigest d}"
   | .put i d => s!"put{i}={showDigest d}"
+  | .getc i p c => s!"getc{i}={showDigest p}>{showDigest c}"
 
 def step (s : S) (line : String) : S × String :=
   match words line with
@@ -171,6 +174,19 @@ def step (s : S) (line : String) : S × String :=
       | .ok _ => (s, s!"{cs} ok")
       | .error e => (s, s!"{cs} {showErr e}")
     | _, _ => (s, "bad-op")
+  | ["getc", ptok, ctok] =>
+    match digest? ptok, digest? ctok, s.sel with
+    | some p, some c, some sel =>
+      let (calls, res) := getFromCompositeOp (s.access sel) p c
+      let cs := " ".intercalate (calls.map showCall)
+      match res with
+      | .ok _ => (s, s!"{cs} ok")
+      | .error e => (s, s!"{cs} {showErr e}")
+    | _, _, _ => (s, "bad-op")
+  | ["dump"] =>
+    match s.sel with
+    | some sel => (s, " ".intercalate (sel.map fun e => s!"{e.hash.toNat}:{e.weight.toNat}:{e.tag}"))
+    | none => (s, "bad-op")
   | ["put", tok] =>
     match digest? tok, s.sel with
     | some d, some sel =>
